@@ -51,11 +51,14 @@ func checkC33(p *Prog, r *Result, tier string) {
 	r.Technique = "map-iteration-order taint rule over resource/plugins/cpumem/schedule (a slice appended to inside a range over a map is order-tainted until a sort of that slice dominates the function's exits), data-flow rules for the affinity argument and for the element the caller takes, reachability of the affinity reorder"
 	r.Explanation = "MO in the planner package every slice that is appended to while ranging over a Go map is sorted before the function returns (sort.Slice/SliceStable/Strings on that slice dominates every later return): the position of a plan in the returned list, and the order in which cores are considered, never depend on map iteration order; " +
 		"NO the per-NUMA-node planning loop of GetCPUPlans ranges over a sorted list of node ids whose comparator reads the affinity map (nodes holding the origin cores first), not over the map itself; " +
+		"TOPO every core-to-numa-node lookup of the planner reads resourceInfo.Capacity.NUMA; NR the resources recorded for the re-allocated workload are built from the FULL new request (delta + origin) and the chosen plan only, never from the delta request; " +
 		"AF1 CalculateRealloc passes the origin workload's CPU map as the affinity argument of GetCPUPlans and takes element 0 of the returned plans after an emptiness test; AF2 GetCPUPlans forwards that affinity map to every doGetCPUPlans call; AF3 a non-empty affinity map makes doGetCPUPlans build the origin host and reorder the new host by it, which switches the full-core planner to its affinity variant."
 	r.NotCovered = "that the affinity variant actually yields the old cores for every node state (numeric / ordering inside getFullCPUPlansWithAffinity); nodes with fractional shares (excluded by the property)"
 	r.Assumptions = []string{"sort.Slice* with a total order gives a deterministic result"}
 	r.min("MO", 3)
 	r.min("NO", 1)
+	r.min("TOPO", 1)
+	r.min("NR", 1)
 	r.min("AF1", 2)
 	r.min("AF2", 2)
 	r.min("AF3", 2)
@@ -110,6 +113,46 @@ func checkC33(p *Prog, r *Result, tier string) {
 		return
 	}
 	aff := G.paramObj(1)
+	// locals filled inside a loop that ranges over the affinity map are affinity-derived
+	derived := map[types.Object]bool{}
+	G.inspectBody(func(n ast.Node) bool {
+		rs, ok := n.(*ast.RangeStmt)
+		if !ok || G.objOf(rs.X) != aff {
+			return true
+		}
+		inspectNoLit(rs.Body, func(x ast.Node) bool {
+			if as, ok := x.(*ast.AssignStmt); ok {
+				for _, l := range as.Lhs {
+					if base, _ := indexBaseObj(G, l); base != nil {
+						derived[base] = true
+					}
+					if o := G.objOf(l); o != nil {
+						derived[o] = true
+					}
+				}
+			}
+			return true
+		})
+		return true
+	})
+	// TOPO: every topology lookup (core -> numa node) in the planner uses the capacity's topology, the one the per-node
+	// core maps are built from
+	{
+		n, bad := 0, ""
+		ast.Inspect(G.Body, func(x ast.Node) bool {
+			sel, ok := x.(*ast.SelectorExpr)
+			if !ok || sel.Sel.Name != "NUMA" {
+				return true
+			}
+			n++
+			if inner, ok := unparen(sel.X).(*ast.SelectorExpr); !ok || inner.Sel.Name != "Capacity" || G.objOf(inner.X) != G.paramObj(0) {
+				bad = exprStr(sel) + " at " + p.pos(sel)
+			}
+			return true
+		})
+		r.check(n > 0 && bad == "", "TOPO", G.Name+" / core-to-numa-node lookups use the capacity topology", p.pos(G.Decl), fmt.Sprintf("%d lookup(s), all resourceInfo.Capacity.NUMA", n),
+			"topology read from `"+bad+"`: only Capacity.NUMA is kept up to date (usage carries a copy made when the node was added), so on a node whose topology was set later the origin cores' numa node is not recognised and a re-allocation without change moves the workload")
+	}
 	{
 		why := "no loop planning each numa node"
 		var at ast.Node = G.Decl
@@ -163,6 +206,9 @@ func checkC33(p *Prog, r *Result, tier string) {
 										seenLits[fl] = true
 										scan(fl.Body)
 									}
+								}
+								if derived[o] {
+									reads = true
 								}
 							}
 						}
@@ -230,6 +276,76 @@ func checkC33(p *Prog, r *Result, tier string) {
 			return true
 		})
 		r.check2(why, "AF1", C.Name+" / the first plan is the one applied", p.pos(C.Decl), "cpuPlans[0]")
+		// NR: nothing recorded for the new workload reads the delta request
+		{
+			var delta types.Object
+			C.inspectBody(func(n ast.Node) bool {
+				if c, ok := n.(*ast.CallExpr); ok {
+					if sel, ok := unparen(c.Fun).(*ast.SelectorExpr); ok && sel.Sel.Name == "Parse" && len(c.Args) == 1 && C.objOf(c.Args[0]) == C.paramObj(3) {
+						delta = C.objOf(sel.X)
+					}
+				}
+				return true
+			})
+			var newRes types.Object
+			var lit *ast.CompositeLit
+			C.inspectBody(func(n ast.Node) bool {
+				if as, ok := n.(*ast.AssignStmt); ok && len(as.Lhs) == 1 && len(as.Rhs) == 1 {
+					e := unparen(as.Rhs[0])
+					if u, ok := e.(*ast.UnaryExpr); ok {
+						e = unparen(u.X)
+					}
+					if cl, ok := e.(*ast.CompositeLit); ok && strings.HasSuffix(C.typeOf(cl).String(), "types.WorkloadResource") {
+						newRes, lit = C.objOf(as.Lhs[0]), cl
+					}
+				}
+				return true
+			})
+			whyN := ""
+			if delta == nil || newRes == nil {
+				whyN = "could not identify the delta request or the recorded workload resource"
+			} else {
+				usesDelta := func(n ast.Node) string {
+					out := ""
+					ast.Inspect(n, func(x ast.Node) bool {
+						if sel, ok := x.(*ast.SelectorExpr); ok && C.objOf(sel.X) == delta {
+							out = exprStr(sel)
+						}
+						return true
+					})
+					return out
+				}
+				if u := usesDelta(lit); u != "" {
+					whyN = "the recorded resource is built from `" + u + "`, a field of the DELTA request"
+				}
+				// locals feeding the literal (numaMemory etc.) and later field assignments
+				C.inspectBody(func(n ast.Node) bool {
+					as, ok := n.(*ast.AssignStmt)
+					if !ok || len(as.Rhs) != 1 {
+						return true
+					}
+					feeds := false
+					for _, l := range as.Lhs {
+						if sel, ok := unparen(l).(*ast.SelectorExpr); ok && C.objOf(sel.X) == newRes {
+							feeds = true
+						}
+						if o := C.objOf(l); o != nil && lit != nil && C.usesObj(lit, o) {
+							feeds = true
+						}
+					}
+					if t := C.typeOf(as.Rhs[0]); t != nil && strings.HasSuffix(t.String(), "WorkloadResourceRequest") {
+						feeds = false // the full request itself is, by construction, delta + origin (checked by C10/ADM)
+					}
+					if feeds {
+						if u := usesDelta(as.Rhs[0]); u != "" && !strings.HasSuffix(u, "CPUBind") {
+							whyN = "`" + exprStr(as.Lhs[0]) + "` of the recorded resource is computed from `" + u + "`, a field of the DELTA request: the workload's record (e.g. its per-numa-node memory) then holds the delta instead of the new total, usage drifts from the sum of the workloads, and a later re-allocation no longer finds room where the workload is"
+						}
+					}
+					return true
+				})
+			}
+			r.check2(whyN, "NR", C.Name+" / the recorded resources come from the full new request, not from the delta", p.pos(C.Decl), "every field of the new WorkloadResource reads newReq or the chosen plan")
+		}
 	}
 	// ---- AF2
 	{
